@@ -99,7 +99,8 @@ type checker struct {
 	c      *core.Ctx
 	cs     *c04Case
 	ok     bool
-	fuzz   int // malformed streams derived from the case: 0 none, 1 sampled, 2 also exhaustive for short encodings
+	fuzz   int  // malformed streams derived from the case: 0 none, 1 sampled, 2 also exhaustive for short encodings
+	tie    bool // hand Go's encoding of the case to the model of the Go decoder
 	cutRng *rand.Rand
 }
 
@@ -108,6 +109,7 @@ type checker struct {
 // longer than fuzzMaxLen are not mutated
 var (
 	fuzzEvery  = uint32(1)
+	tieEvery   = uint32(1)
 	tieMaxLen  = 6000
 	fuzzMaxLen = 6000
 )
@@ -158,8 +160,10 @@ func check(c *core.Ctx, cs *c04Case) bool {
 	key, _ := json.Marshal(cs)
 	hh := fnv.New32a()
 	hh.Write(key)
-	if hv := hh.Sum32(); hv%fuzzEvery == 0 {
-		k.fuzz = 1
+	hv := hh.Sum32()
+	k.tie = hv%tieEvery == 0
+	if hv%fuzzEvery == 0 {
+		k.fuzz, k.tie = 1, true
 		if (hv/fuzzEvery)%4 == 0 {
 			k.fuzz = 2
 		}
@@ -775,9 +779,11 @@ func genStrs(rng *rand.Rand, n, kind, fixed int) []string {
 }
 
 func run(c *core.Ctx) {
+	dictBulk(c)
 	c.Res.Rule = "per (encoding, type): sequences from length buckets {0,1,2,3,7,8,9,15..17,31..33,63..65,127..130,255..258,1000,1025} x value patterns (constant, ramp, extremes, alternating, random full range, small runs; levels: constant, long runs, width-filling, group patterns; byte strings: shared prefixes, empty/long, identical, small alphabet), all RLE bit widths 0..8 (levels) and 0..32 (int32), an exhaustive sweep of all sequences of length <= 4 over {min,-1,0,1,max} for the delta encodings; destination buffers nil / dirty / oversized / reused. Checked per case: Go bytes == model bytes, Go decode(Go bytes) == input, specification decoder(Go bytes) == input. Non-trivial = at least 2 values; distinct by the JSON of the case."
 	rng := c.Rng
 	fuzzEvery = uint32(c.N(10, 1))
+	tieEvery = uint32(c.N(2, 1))
 	tieMaxLen = c.N(400, 6000)
 	fuzzMaxLen = c.N(120, 1500)
 
